@@ -833,6 +833,22 @@ Lemma secp256k1_rejects :
   new_ec_point secp256k1 0 0 = None.
 Proof. split; [|split]; vmc. Qed.
 
+(* a curve outside the library's registry (NIST P-256, a = -3): the same code paths serve it *)
+Lemma p256_base_on_curve : pt_on_curve p256 (base p256) = true.
+Proof. vmc. Qed.
+
+Lemma p256_triple_on_curve :
+  let B := base p256 in
+  pt_on_curve p256 (pt_add p256 (pt_add p256 B B) B) = true
+  /\ pt_add p256 (pt_add p256 B B) B = pt_add p256 B (pt_add p256 B B).
+Proof. intros B. split; vmc. Qed.
+
+Lemma p256_rejects :
+  new_ec_point p256 (cgx p256) (cgy p256 + cp p256) = None /\
+  new_ec_point p256 (cgx p256) (cgy p256 + 1) = None /\
+  new_ec_point p256 0 0 = None.
+Proof. split; [|split]; vmc. Qed.
+
 Lemma ed25519_base_on_curve : pt_on_curve ed25519 (base ed25519) = true.
 Proof. vmc. Qed.
 
